@@ -170,6 +170,17 @@ reg("C02", "invariant monitor over jitted scan rollouts through the real env.ste
     "Trusts the NumPy membership model; pre-reset successors judged for classic control only (MuJoCo/G1 boxes are unbounded); RescaleObservation/"
     "RescaleAction used only over bounded boxes; quick tier = classic control + InvertedPendulum + HalfCheetah.")
 
+reg("C12", "differential monitor: every environment function evaluated eagerly / under jit / under vmap (shuffled, repeated, interleaved with a second instance) must agree; vectorised collection vs N single-environment twins from the same per-env keys and states; interpreter replay of parallel rollouts; per-env policy-state counters",
+    "Held on every case explored: the ten environment functions of all classic-control envs, 14 wrapper stacks, MuJoCo envs (InvertedPendulum quick, all 11 "
+    "thorough) and G1Standing give the same answers eagerly, under filter_jit, closure jit, disable_jit and jit(vmap) at batch sizes 1/2/7 (integers and "
+    "booleans exactly, floats to 1e-5 / 1e-4), independent of call order and of calls on other instances; N-environment collection of PPO/A2C/REINFORCE/DQN/"
+    "SAC equals N single-environment collections from the same keys and start states leaf by leaf, per-env advantages equal the float64 GAE reference on "
+    "that env's own stream (and differ from GAE over the flattened batch), parallel table-policy rollouts equal interpreter rollouts, per-env policy-state "
+    "counters never leak, and parallel environments get distinct keys.",
+    "Differences above the base tolerance are excused only if within 30x the measured effect of a 2e-7 relative perturbation of all float arguments "
+    "(ill-conditioned contact by-products, chaotic amplification) and the reference re-run on rebuilt arrays is bit-identical; MJX contact rows of "
+    "non-touching pairs are not compared.")
+
 
 def main():
     props = [json.loads(l) for l in (ROOT / "properties.jsonl").read_text().splitlines() if l.strip()]
